@@ -80,7 +80,7 @@ func genMixedTx(rng *rand.Rand, g *GenesisSpec) Op {
 	price := pick(rng, "b", "b+1", "b+1000000000", "b*2", "b*3")
 	tip := pick(rng, "0", "1", "1000000000", "5")
 	op := Op{K: "eth", W: w, Typ: typ, Price: price, Tip: tip}
-	if typ == 1 && rng.IntN(2) == 0 {
+	if typ >= 1 && rng.IntN(2) == 0 {
 		op.Mut = "al"
 	}
 	switch k := rng.IntN(100); {
@@ -90,6 +90,9 @@ func genMixedTx(rng *rand.Rand, g *GenesisSpec) Op {
 		op.Gas = pick(rng, "i", "i+1", "i+1000", "i+79000", "i+500000")
 		if rng.IntN(5) == 0 {
 			op.To = fmt.Sprintf("fresh%d", rng.IntN(4))
+		}
+		if rng.IntN(12) == 0 {
+			op.To = pick(rng, "mod:evm", "mod:evm", "mod:fee_collector", "mod:distribution") // value sent to a module account
 		}
 	case k < 26:
 		op.To, op.Data, op.Gas = "c:store", hexWord(rng.IntN(5)), pick(rng, "i+50000", "i+100000", "i+30000")
@@ -107,7 +110,7 @@ func genMixedTx(rng *rand.Rand, g *GenesisSpec) Op {
 		op.Data = hexWord(1+rng.IntN(8)) + hexWord(pick(rng, 0, 0, 0, 5, 0xff))
 	case k < 62:
 		op.To, op.Gas = "c:sd", "i+80000"
-		op.Data = "{" + pick(rng, other, fmt.Sprintf("fresh%d", rng.IntN(4)), "c:store") + "}"
+		op.Data = "{" + pick(rng, other, fmt.Sprintf("fresh%d", rng.IntN(4)), "c:store", "mod:evm") + "}"
 		op.Val = pick(rng, "0", "3")
 	case k < 68:
 		op.To, op.Gas = "c:factory", "i+400000"
@@ -120,6 +123,9 @@ func genMixedTx(rng *rand.Rand, g *GenesisSpec) Op {
 			op.Init, op.Data = "rawinit", pick(rng, "", "00", "60016000a0", "6000ff", "60006000f3")
 		}
 		op.Gas = pick(rng, "i+300000", "i+600000", "i+20000")
+		if rng.IntN(8) == 0 {
+			op.Typ, op.Mut = 0, "unprotected" // a creation signed without EIP-155 protection
+		}
 		op.Val = pick(rng, "0", "0", "9", "999999999999999999999999999")
 		if rng.IntN(4) == 0 {
 			// the address the contract will get already holds coins of another denomination only
